@@ -15,7 +15,7 @@ theorem step_ok (cfg : Cfg) (susp : Bool) (probes : List Str) (nsvc : Nat) (rt :
   have hm := h.mirror
   refine ⟨?_, hm⟩
   simp only [stepOk, Bool.and_eq_true]
-  refine ⟨⟨⟨⟨?_, h.result _ _⟩, h.target _ _⟩, h.fallback⟩, h.valid⟩
+  refine ⟨⟨⟨⟨⟨?_, h.result _ _⟩, h.target _ _⟩, h.fallback⟩, h.valid⟩, h.unsubIssued⟩
   show routedOk ((runCallS cfg susp rt c rs).exch.foldl foldExch rt) _ = true
   rw [hm]
   exact routedOk_model probes nsvc _ h.nodup _ _ _
@@ -28,6 +28,8 @@ theorem history_from (cfg : Cfg) (susp : Bool) (probes : List Str) (nsvc : Nat) 
   | cons p rest ih =>
     obtain ⟨c, rs⟩ := p
     simp only [modelTraceS, okFrom]
+    split
+    case isFalse => rfl
     have h := step_ok cfg susp probes nsvc rt c rs hn (hw (c, rs) List.mem_cons_self)
     rw [h.1, h.2, Bool.true_and]
     exact ih (fun q hq => hw q (List.mem_cons_of_mem _ hq)) _
